@@ -69,6 +69,84 @@ def unexpand(sp, fname):
     return out
 
 
+VSTD_STRONG = set("""len push pop insert remove clear truncate extend_from_slice swap get first last is_empty contains_key
+is_some is_none unwrap unwrap_or expect is_ok is_err ok err as_ref as_mut take clone new with_capacity iter next
+unwrap_or_else and_then map ok_or ok_or_else checked_add checked_sub checked_mul wrapping_add wrapping_sub
+saturating_add saturating_sub min max eq ne lt le gt ge cmp partial_cmp into_iter Some None Ok Err Box Rc Arc Vec
+push_str push_back pop_front front back view spec_index index deref borrow""".split())
+
+
+def call_names(gen, text):
+    """names of the functions / methods / macros called from /repo lines of items under verification (after rewriting)"""
+    ext_items = set(it['short'] for it in gen.items if it.get('external'))
+    names = set()
+    lines = text.split('\n')
+    for i, l in enumerate(lines):
+        o = gen.linemap[i] if i < len(gen.linemap) else {}
+        if o.get('kind') not in ('repo', 'gen') or not o.get('item') or o.get('item') in ext_items or '(spec twin)' in (o.get('item') or ''):
+            continue
+        m = R.mask_source(l)
+        for mm in re.finditer(r'\.\s*([A-Za-z_]\w*)\s*(?:::<[^>]*>)?\s*\(', m):
+            names.add(mm.group(1))
+        for mm in re.finditer(r'(?<![\w.])((?:[A-Za-z_]\w*::)*[A-Za-z_]\w*)\s*(?:::<[^>]*>)?\s*\(', m):
+            n = mm.group(1)
+            if n not in ('if', 'while', 'match', 'for', 'return', 'fn', 'loop', 'in', 'as', 'let', 'else', 'move', 'ref', 'mut', 'pub', 'impl', 'where', 'Self', 'self'):
+                names.add(n)            # path calls keep their path: `String::from` is not `Number::from`
+        for mm in re.finditer(r'\b([A-Za-z_]\w*)!\s*[\(\[{]', m):
+            names.add(mm.group(1) + '!')
+    return names
+
+
+def allowed_call_names(gen, text):
+    """functions the generated file itself defines (items, idioms, stubs with contracts) and the std contract library"""
+    allowed = set(VSTD_STRONG)
+    for mm in re.finditer(r'\bfn\s+([A-Za-z_]\w*)', text):
+        allowed.add(mm.group(1))
+    for mm in re.finditer(r'assume_specification(?:<[^\[]*>)?\[\s*([^\]]+)\]', text):
+        allowed.add(re.sub(r'<.*?>', '', mm.group(1)).split('::')[-1].strip())
+    for mm in re.finditer(r'\b(?:struct|enum)\s+([A-Za-z_]\w*)', text):
+        allowed.add(mm.group(1))
+    for mm in re.finditer(r'^\s*([A-Z]\w*)\s*(?:\(|\{|,|=>)', text, re.M):     # enum variants used as constructors
+        allowed.add(mm.group(1))
+    return allowed
+
+
+def new_unknown_calls(unit, gen, text):
+    """Calls in extracted /repo code that were not there on the pinned tree (config/callnames.json) and have no contract
+    this framework knows to be strong.  vstd accepts some std functions with a weak or empty specification (String::from,
+    to_string, into, == on references ..); a proof that runs through such a call fails for a reason that says nothing
+    about the code, so the unit is undecided instead."""
+    try:
+        base = json.load(open(os.path.join(VERIF, 'config', 'callnames.json'))).get(unit)
+    except Exception:
+        base = None
+    if base is None:
+        return []
+    now = call_names(gen, text)
+    allowed = allowed_call_names(gen, text)
+    types_here = set(re.findall(r'\b(?:struct|enum|trait)\s+([A-Za-z_]\w*)', text))
+    out = []
+    for n in sorted(now - set(base)):
+        if '::' in n:
+            head, last = n.split('::')[0], n.split('::')[-1]
+            if head in types_here or head in ('Self', 'self', 'crate', 'super') or last in ('Some', 'None', 'Ok', 'Err'):
+                continue            # a type this file declares: an unknown method is a compile error, a known one has its contract
+        elif n in allowed:
+            continue
+        out.append(n)
+    # `==` / `!=` with a reference operand: accepted by Verus for some types without any meaning attached
+    ext_items = set(it['short'] for it in gen.items if it.get('external'))
+    lines = text.split('\n')
+    for i, l in enumerate(lines):
+        o = gen.linemap[i] if i < len(gen.linemap) else {}
+        if o.get('kind') not in ('repo', 'gen') or not o.get('item') or o.get('item') in ext_items or '(spec twin)' in (o.get('item') or ''):
+            continue
+        m = R.mask_source(l)
+        if re.search(r'(?<![=!<>&|])(==|!=)\s*&(?!&)', m) or re.search(r'(?<![&\w])&(?!&)[\w:]+(?:\([^()]*\))?\s*(==|!=)(?!=)', m):
+            out.append('reference comparison: ' + l.strip()[:60])
+    return out
+
+
 def unannotated_closures(gen, text):
     """closures WITH parameters, in lines that come from /repo items under verification, that carry no annotation"""
     ext_items = set(it['short'] for it in gen.items if it.get('external'))
@@ -147,7 +225,25 @@ class UnitResult:
         }
 
 
-def run_unit(unit, variant=None, scratch=None, rlimit=None, keep=False, extra_args=()):
+def run_unit(unit, variant=None, scratch=None, rlimit=None, keep=False, extra_args=(), second_opinion=True):
+    """Verify one unit.  A failed obligation is only kept if it also fails with Z3's nonlinear arithmetic enabled
+    (`smt.arith.nl=true`, off by default in Verus): an equivalent rewrite such as `-x` -> `-1 * x` is outside the
+    default linear fragment, and a proof lost to that says nothing about the code.  The second run can only
+    discharge more, never less (soundness is unaffected); if it is itself undecided the first verdict stands."""
+    res = _run_unit(unit, variant, scratch, rlimit, keep, extra_args)
+    if second_opinion and res.status == 'ok' and res.failures and 'smt.arith.nl=true' not in ' '.join(extra_args):
+        res2 = _run_unit(unit, variant, None, rlimit, False, tuple(extra_args) + ('--smt-option', 'smt.arith.nl=true'))
+        if res2.status == 'ok':
+            still = set(f['obligation'] for f in res2.failures)
+            dropped = [f['obligation'] for f in res.failures if f['obligation'] not in still]
+            if dropped:
+                res.failures = [f for f in res.failures if f['obligation'] in still]
+                res.errors = max(0, res.errors - len(dropped))
+                res.second_opinion = {'discharged_with_nonlinear_arithmetic': dropped}
+    return res
+
+
+def _run_unit(unit, variant=None, scratch=None, rlimit=None, keep=False, extra_args=()):
     variant = variant or {'RC': 'Rc'}
     res = UnitResult(unit, variant)
     t0 = time.time()
@@ -164,6 +260,11 @@ def run_unit(unit, variant=None, scratch=None, rlimit=None, keep=False, extra_ar
     res.gen = gen
     res.gen_text = text
     res.trusted_scan = X.scan_trusted(text)
+    nk = new_unknown_calls(unit, gen, text)
+    if nk:
+        res.status = 'undecided'
+        res.undecided_reason = 'extracted code calls function(s) absent from the pinned tree and without a contract known to be strong: ' + ', '.join(nk[:6])
+        return res
     uc = unannotated_closures(gen, text)
     if uc:
         # an exec closure with parameters and no `-> (r: T) ensures ..` annotation is opaque to Verus: whatever is computed
